@@ -21,6 +21,9 @@ ChkIf(pre, cond, line, prop, why) == IF pre THEN Chk(cond, line, prop, why) ELSE
 Ids(hits)        == [i \in DOMAIN hits |-> hits[i].id]
 HasRec(s, id)    == \E i \in DOMAIN s.records : s.records[i].id = id
 RecOf(s, id)     == s.records[CHOOSE i \in DOMAIN s.records : s.records[i].id = id]
+\* the same through the id -> position map the trace specification keeps next to each store (S.ix)
+HasRecS(S, id)   == id \in DOMAIN S.ix
+RecOfS(S, id)    == S.s.records[S.ix[id]]
 UniqueIds(s)     == NoDup([i \in DOMAIN s.records |-> s.records[i].id])
 Sentinels(s)     == s.dividers.l = <<SL>> /\ s.dividers.r = <<SR>>
 SentinelFree(t)  == SL \notin SeqRange(t) /\ SR \notin SeqRange(t)
@@ -44,14 +47,14 @@ C01(E, line) ==
 C02Hit(h, S, line) ==
   LET s == S.s IN
   JoinAll(<<
-    Chk(HasRec(s, h.id), line, "C02", "hit id was never added"),
+    Chk(HasRecS(S, h.id), line, "C02", "hit id was never added"),
     Chk(0 \notin SeqRange(h.title), line, "C02", "returned title contains NUL"),
-    IF HasRec(s, h.id) /\ Sentinels(s) /\ SentinelFree(RecOf(s, h.id).title)
+    IF HasRecS(S, h.id) /\ Sentinels(s) /\ SentinelFree(RecOfS(S, h.id).title)
       THEN LET p == ParseHL(h.title) IN
            \* the stored title with the language's accent sequences composed and NUL dropped (in either order:
            \* a NUL between a letter and its combining mark is the one case where the two orders differ)
-           ChkIf(p.ok, p.plain \in { StripNul(ComposeSeq(S.lang, RecOf(s, h.id).title)),
-                                     ComposeSeq(S.lang, StripNul(RecOf(s, h.id).title)) },
+           ChkIf(p.ok, p.plain \in { StripNul(ComposeSeq(S.lang, RecOfS(S, h.id).title)),
+                                     ComposeSeq(S.lang, StripNul(RecOfS(S, h.id).title)) },
                  line, "C02", "title without markers differs from the stored title (composed, NUL dropped)")
       ELSE NoRes >>)
 
@@ -67,7 +70,7 @@ C02Alt(E, S, line) ==
            IF Ids(A.hits) = Ids(E.hits)
              THEN JoinAll([i \in DOMAIN E.hits |->
                     LET p == ParseHL(E.hits[i].title) IN
-                    ChkIf(p.ok /\ HasRec(S.s, E.hits[i].id) /\ SentinelFree(RecOf(S.s, E.hits[i].id).title),
+                    ChkIf(p.ok /\ HasRecS(S, E.hits[i].id) /\ SentinelFree(RecOfS(S, E.hits[i].id).title),
                           A.hits[i].title = InsertMarkers(p.plain, p.spans, A.l, A.r),
                           line, "C02", "changing the markers changed more than the markers")])
              ELSE NoRes >>)])
@@ -76,10 +79,10 @@ C02Alt(E, S, line) ==
 \* C09 (+ the span clause of C05): markup of one hit against the public tokenisation of its title
 C09Hit(h, E, S, line) ==
   LET s == S.s IN
-  IF ~(HasRec(s, h.id) /\ Sentinels(s) /\ SentinelFree(RecOf(s, h.id).title)) THEN NoRes
+  IF ~(HasRecS(S, h.id) /\ Sentinels(s) /\ SentinelFree(RecOfS(S, h.id).title)) THEN NoRes
   ELSE
   LET p    == ParseHL(h.title)
-      tok  == RecOf(s, h.id).tok
+      tok  == RecOfS(S, h.id).tok
       okLen == p.ok /\ Len(p.plain) = Len(StripNul(tok.source))
   IN JoinAll(<<
        Chk(p.ok, line, "C09", "markers do not alternate"),
@@ -105,8 +108,8 @@ C09Hit(h, E, S, line) ==
 ----------------------------------------------------------------------------
 \* C05: every hit shares a gram with the query
 C05Hit(h, E, S, line) ==
-  IF ~(Has(E, "qtok") /\ QHasWords(E) /\ HasRec(S.s, h.id)) THEN NoRes
-  ELSE Chk(GramSet(RecOf(S.s, h.id).tok) \cap GramSet(E.qtok) # {}, line, "C05", "hit shares no gram with the query")
+  IF ~(Has(E, "qtok") /\ QHasWords(E) /\ HasRecS(S, h.id)) THEN NoRes
+  ELSE Chk(GramSet(RecOfS(S, h.id).tok) \cap GramSet(E.qtok) # {}, line, "C05", "hit shares no gram with the query")
 
 ----------------------------------------------------------------------------
 \* C06 (generic half): never more hits than the limit, no record twice
@@ -184,9 +187,9 @@ C12(E, S, line) ==
   ELSE
   LET s == S.s  h == E.hits
       listed == { h[i].id : i \in DOMAIN h }
-      known  == \A i \in DOMAIN h : HasRec(s, h[i].id)
-      rt(id) == RecOf(s, id).rating
-      key(id) == RecOf(s, id).tok.chars
+      known  == \A i \in DOMAIN h : HasRecS(S, h[i].id)
+      rt(id) == RecOfS(S, id).rating
+      key(id) == RecOfS(S, id).tok.chars
   IN JoinAll(<<
        Chk(Len(h) = Min2(s.limit, Len(s.records)), line, "C12", "empty query does not return min(limit, records) hits"),
        Chk(known, line, "C12", "empty query lists a record that is not in the store"),
@@ -196,7 +199,7 @@ C12(E, S, line) ==
                \A id \in listed : /\ rt(id) >= r.rating
                                   /\ (rt(id) = r.rating => LexLeq(key(id), r.tok.chars)),
              line, "C12", "an omitted record is better rated (or earlier in title order at equal rating) than a listed one"),
-         IF Sentinels(s) THEN Chk(\A i \in DOMAIN h : SentinelFree(h[i].title) \/ ~SentinelFree(RecOf(s, h[i].id).title),
+         IF Sentinels(s) THEN Chk(\A i \in DOMAIN h : SentinelFree(h[i].title) \/ ~SentinelFree(RecOfS(S, h[i].id).title),
                                   line, "C12", "empty query produced highlighting") ELSE NoRes >>)
        ELSE NoRes >>)
 =============================================================================
